@@ -321,7 +321,14 @@ func GenGrammarMetric(t *rapid.T, depth int, allowYear bool) *gen.Metric {
 		}
 		if m.Op == "topk" || m.Op == "bottomk" {
 			m.HasK, m.K = true, rapid.IntRange(1, 20).Draw(t, "gm-k")
-			if rapid.IntRange(0, 7).Draw(t, "gm-k-huge") == 0 {
+			if rapid.IntRange(0, 5).Draw(t, "gm-k-zeros") == 0 {
+				// Leading zeros do not make an integer octal.
+				z := rapid.SampledFrom([]struct {
+					text string
+					v    int
+				}{{"010", 10}, {"0012", 12}, {"007", 7}, {"0100", 100}, {"01", 1}, {"00020", 20}}).Draw(t, "gm-k-zerotext")
+				m.K, m.KText = z.v, z.text
+			} else if rapid.IntRange(0, 7).Draw(t, "gm-k-huge") == 0 {
 				m.K = rapid.SampledFrom([]int{1 << 31, 1 << 40, 1 << 58, 1<<62 + 1, 1<<63 - 1}).Draw(t, "gm-k-hugeval")
 			}
 		}
